@@ -1,28 +1,39 @@
 import Cx.Model.Nfa
 import Cx.Model.Caps
 /-
-  Cx.Model.OnePass — the one-pass DFA of `dfa/onepass`, transliterated over the dumped NFA.
+  Cx.Model.OnePass — the one-pass DFA of `dfa/onepass`, transliterated over the dumped NFA (code as of 2d44821).
 
-    `build N`      `builder.go`: `Build` → `buildState` (memo map NFA root → DFA state, rows of `stride` transitions)
-                   → `epsilonClosureOnePass` (explicit stack, `seen` set consulted when a state is PUSHED: a second
-                   epsilon path to a state rejects the pattern; a second match state in one closure rejects it)
-                   → `buildTransitions` (per byte class: one target NFA state, slots of the SOURCE closure entry,
-                   OR-ed when two closure entries reach the same target) ; `IsOnePass` (`IsAlwaysAnchored`);
-                   `ErrNotOnePass` = `none`.
-    `search T h n` `search.go`: `Search` (anchored at offset 0).
+    `hasUnsupportedLook N`  `look.go`: `reachableStates` (explicit stack, `seen` map), `successors`; rejects automata
+                   with `\b`, `\B`, `(?m)$`, a start look reachable after a byte was consumed, or an end look `\z` with
+                   a byte-consuming state behind it.
+    `build N`      `builder.go`: `Build` (guards, state 0 = dead state) → `buildState` (memo map NFA root → DFA state,
+                   rows of `stride` transitions) → `epsilonClosureOnePass` (explicit stack of `(nfaID, slots, atEnd)`,
+                   `seen` set consulted when a state is PUSHED: a second epsilon path to a state rejects the pattern; a
+                   second match state in one closure rejects it; the LEFT branch of a split is explored first; every
+                   popped state becomes a closure entry flagged `matchWins` when a match state that is not behind an
+                   end look precedes it) → `buildTransitions` (entries behind an end look are skipped; per byte class ONE
+                   `(target, slots, matchWins)`, anything else rejects — slot masks are never merged);
+                   `IsOnePass` (`IsAlwaysAnchored`, `hasUnsupportedLook`); `ErrNotOnePass` = `none`.
+    `search T h n` `search.go`: `Search` (anchored at offset 0, leftmost-first); `searchLongest` = `SearchLongest`.
     `Trans`        `transition.go`: 64-bit encoding (next state ≪ 43 | match-wins ≪ 42 | slot mask).
     `classOf`      `nfa/alphabet.go`: byte classes from the boundaries `lo-1`, `hi` of every byte-range / sparse
                    transition of the automaton (checked against `n.ByteClasses()` by the harness).
 
   What is kept exactly as the code has it:
-   * DFA state ids are handed out from 0, and `DeadState` is 0 as well: the state of the anchored start is id 0, so
-     every transition INTO the start state's DFA state is indistinguishable from "no transition" (`IsDead`);
-   * look-around states are followed as plain epsilon moves — no assertion is ever evaluated;
-   * `NewTransition(next, false, slots)`: the match-wins flag is never set, so `Search` only answers at the END of the
-     input: the whole input must be consumed and the final state must be a match state;
-   * slots of a transition = slots on the epsilon path from the DFA state's root to the byte state, recorded at the
-     offset of the byte; the match state's slots are recorded at the end; slot 0 := 0, slot 1 := len(input);
-   * a split pushes left, then right: the right branch is popped (explored) first.
+   * DFA state 0 is a real dead state (no match, every transition dead); ids of real states start at 1; a transition
+     is dead iff its next state is 0;
+   * per DFA state: `matchStates`, `endMatches` (the match state lies behind `\z`: it only counts at the end of the
+     input), `matchSlots`;
+   * start looks are followed unconditionally (sound because of the guard: they are only reachable at offset 0),
+     end looks set `atEnd`;
+   * slots of a transition = slots on the epsilon path from the DFA state's root to the byte state, recorded into the
+     scratch array at the offset of the byte; a match copies the scratch array, records the match state's slots at
+     the match offset, and sets slot 0 := 0, slot 1 := offset; the search goes on after a match when the transition
+     it takes has priority over the match (`matchWins` clear) and falls back to the recorded match when that path dies.
+  Panics are modelled as "no DFA" (`none`): `sparse.SparseSet.Insert` of a state id that is out of range (`push`),
+  `conv.IntToUint32(n.States())` for more than 2^32-1 states (`build`).  `reach` carries a fuel that is never
+  exhausted (every iteration pops one entry, every state pushes its successors once); running out is answered
+  `none` = "unsupported".
   The Go code walks the per-state transition map in Go's (random) map order; that order only decides how DFA states
   are numbered.  The model walks byte classes in ascending order.  `CaptureCount() > 16` (→ `ErrTooManyCaptures`) is
   `buildFor`.  Core-only and executable.
@@ -85,30 +96,108 @@ def nextPow2 (n : Nat) : Nat :=
   if n ≤ 1 then 1 else if n ≤ 2 then 2 else if n ≤ 4 then 4 else if n ≤ 8 then 8 else if n ≤ 16 then 16
   else if n ≤ 32 then 32 else if n ≤ 64 then 64 else if n ≤ 128 then 128 else 256
 
+/-! ### `look.go` -/
+
+/-- `nfa.InvalidState` -/
+def invalidState : Nat := 4294967295
+
+/-- byte-consuming kinds -/
+def consuming (s : NState) : Bool :=
+  match s with
+  | .byteRange _ _ _ => true
+  | .sparse _ => true
+  | .runeAny _ => true
+  | .runeAnyNotNL _ => true
+  | _ => false
+
+/-- the loop of `reachableStates` (top of the stack first); `none` = out of fuel (never happens) -/
+def reachLoop (N : NFA) : Nat → List Nat → Array Bool → Option (Array Bool)
+  | 0, _, _ => none
+  | _+1, [], seen => some seen
+  | fuel+1, id :: st, seen =>
+    if id = invalidState ∨ seen.getD id false then reachLoop N fuel st seen else
+    if id ≥ N.states.size then reachLoop N fuel st seen else          -- `n.State(id) == nil`
+    reachLoop N fuel ((succStates (N.get id)).reverse ++ st) (seen.setIfInBounds id true)
+
+def reachFuel (N : NFA) (roots : List Nat) : Nat :=
+  roots.length + (N.states.toList.map fun s => (succStates s).length).sum + 1
+
+/-- `reachableStates(n, roots)` as a characteristic array -/
+def reach (N : NFA) (roots : List Nat) : Option (Array Bool) :=
+  reachLoop N (reachFuel N roots) roots.reverse (Array.replicate N.states.size false)
+
+/-- the `switch look` of `hasUnsupportedLook` for the look state `id`; `C` = `consumed` -/
+def badLook (N : NFA) (C : Array Bool) (id : Nat) : Bool :=
+  match N.get id with
+  | .look .startText _ => C.getD id false
+  | .look .startLine _ => C.getD id false
+  | .look .endText nx =>
+    match reach N [nx] with
+    | none => true
+    | some A => (List.range N.states.size).any fun q => A.getD q false && consuming (N.get q)
+  | _ => true
+
+def isLook (s : NState) : Bool :=
+  match s with
+  | .look _ _ => true
+  | _ => false
+
+/-- `hasUnsupportedLook(n)` -/
+def hasUnsupportedLook (N : NFA) : Bool :=
+  match reach N [N.startAnchored] with
+  | none => true
+  | some R =>
+    let ids := (List.range N.states.size).filter fun q => R.getD q false
+    let looks := ids.filter fun q => isLook (N.get q)
+    let afterByte := ids.flatMap fun q => if consuming (N.get q) then succStates (N.get q) else []
+    if looks.isEmpty then false else
+    match reach N afterByte with
+    | none => true
+    | some C => looks.any (badLook N C)
+
 /-! ### `builder.go` -/
 
-/-- `closureEntry` / `stackEntry` -/
+/-- `stackEntry` -/
 structure Entry where
   nfaID : Nat
   slots : Nat
-  deriving Repr, Inhabited
+  atEnd : Bool
+  deriving Repr, Inhabited, DecidableEq
 
-/-- closure under construction: `seen`, the DFS stack (top first), the entries popped so far, `matched`, `matchMask` -/
+/-- `closureEntry` -/
+structure CEntry where
+  nfaID : Nat
+  slots : Nat
+  atEnd : Bool
+  matchWins : Bool
+  deriving Repr, Inhabited, DecidableEq
+
+/-- closure under construction: `seen`, the DFS stack (top first), the entries popped so far, `matched`, `matchMask`,
+    `matchEnd` -/
 structure ClS where
   seen : Array Bool
   stack : List Entry
-  closure : List Entry
+  closure : List CEntry
   matched : Bool
   matchMask : Nat
+  matchEnd : Bool
   deriving Inhabited
 
-/-- `stackPush`: a state that was already pushed rejects the pattern -/
-def push (s : ClS) (q slots : Nat) : Option ClS :=
+/-- `stackPush`: a state that was already pushed rejects the pattern (`SparseSet.Insert` panics on an id that is out
+    of range: no DFA either) -/
+def push (s : ClS) (q slots : Nat) (atEnd : Bool) : Option ClS :=
   if s.seen.getD q false then none
-  else some { s with seen := s.seen.setIfInBounds q true, stack := ⟨q, slots⟩ :: s.stack }
+  else if q ≥ s.seen.size then none
+  else some { s with seen := s.seen.setIfInBounds q true, stack := ⟨q, slots, atEnd⟩ :: s.stack }
 
 /-- `slots |= 1 << slotIdx` (for `slotIdx < 32`) -/
 def setBit (mask i : Nat) : Nat := if i < 32 then mask ||| (1 <<< i) else mask
+
+def isEndLook (k : Look) : Bool :=
+  match k with
+  | .endText => true
+  | .endLine => true
+  | _ => false
 
 /-- the `for len(b.stack) > 0` loop of `epsilonClosureOnePass` -/
 def closureLoop (N : NFA) : Nat → ClS → Option ClS
@@ -117,78 +206,110 @@ def closureLoop (N : NFA) : Nat → ClS → Option ClS
     match s.stack with
     | [] => some s
     | e :: st =>
-      let s := { s with stack := st, closure := s.closure ++ [e] }
+      let s := { s with stack := st, closure := s.closure ++ [⟨e.nfaID, e.slots, e.atEnd, s.matched && !s.matchEnd⟩] }
       if e.nfaID ≥ N.states.size then closureLoop N fuel s else
       match N.get e.nfaID with
-      | .mtch => if s.matched then none else closureLoop N fuel { s with matched := true, matchMask := e.slots }
+      | .mtch =>
+        if s.matched then none
+        else closureLoop N fuel { s with matched := true, matchMask := e.slots, matchEnd := e.atEnd }
       | .split l r =>
-        match push s l e.slots with
+        match push s r e.slots e.atEnd with
         | none => none
         | some s1 =>
-          match push s1 r e.slots with
+          match push s1 l e.slots e.atEnd with
           | none => none
           | some s2 => closureLoop N fuel s2
       | .eps nx =>
-        match push s nx e.slots with
+        match push s nx e.slots e.atEnd with
         | none => none
         | some s1 => closureLoop N fuel s1
       | .cap idx isStart nx =>
-        match push s nx (setBit e.slots (slotIdx idx isStart)) with
+        match push s nx (setBit e.slots (slotIdx idx isStart)) e.atEnd with
         | none => none
         | some s1 => closureLoop N fuel s1
-      | .look _ nx =>
-        match push s nx e.slots with
+      | .look k nx =>
+        if nx = invalidState then closureLoop N fuel s else
+        match push s nx e.slots (e.atEnd || isEndLook k) with
         | none => none
         | some s1 => closureLoop N fuel s1
+      | .runeAny _ => none
+      | .runeAnyNotNL _ => none
       | _ => closureLoop N fuel s
 
-/-- `epsilonClosureOnePass(root)`: closure entries, `isMatch`, `matchMask` -/
-def epsClosure (N : NFA) (root : Nat) : Option (List Entry × Bool × Nat) :=
-  match push { seen := Array.replicate N.states.size false, stack := [], closure := [], matched := false, matchMask := 0 }
-      root 0 with
+/-- result of `epsilonClosureOnePass(root)`: closure entries, `isMatch`, `b.matchEnd`, `b.matchMask` -/
+structure Closure where
+  entries : List CEntry
+  matched : Bool
+  matchEnd : Bool
+  matchMask : Nat
+  deriving Inhabited
+
+def initClS (N : NFA) : ClS :=
+  { seen := Array.replicate N.states.size false, stack := [], closure := [], matched := false, matchMask := 0,
+    matchEnd := false }
+
+def epsClosure (N : NFA) (root : Nat) : Option Closure :=
+  match push (initClS N) root 0 false with
   | none => none
   | some s0 =>
     match closureLoop N (3 * N.states.size + 3) s0 with
     | none => none
-    | some s => some (s.closure, s.matched, s.matchMask)
+    | some s => some ⟨s.closure, s.matched, s.matchEnd, s.matchMask⟩
 
-/-- `transInfo` per byte class -/
-abbrev BT := Array (Option (Nat × Nat))
+/-- `transInfo` -/
+abbrev Info := Nat × Nat × Bool
+
+/-- `byteTransitions` per byte class -/
+abbrev BT := Array (Option Info)
 
 /-- the body of `for by := lo; by <= hi; by++` -/
-def addByte (cls : Array Nat) (next slots : Nat) (bt : Option BT) (byte : Nat) : Option BT :=
+def addByte (cls : Array Nat) (info : Info) (bt : Option BT) (byte : Nat) : Option BT :=
   match bt with
   | none => none
   | some bt =>
     let cl := cls.getD byte 0
     match bt.getD cl none with
-    | some (tgt, sl) => if tgt ≠ next then none else some (bt.setIfInBounds cl (some (next, sl ||| slots)))
-    | none => some (bt.setIfInBounds cl (some (next, slots)))
+    | some ex => if ex ≠ info then none else some (bt.setIfInBounds cl (some info))
+    | none => some (bt.setIfInBounds cl (some info))
 
-def addRange (cls : Array Nat) (lo hi next slots : Nat) (bt : Option BT) : Option BT :=
-  ((List.range (hi + 1 - lo)).map (· + lo)).foldl (addByte cls next slots) bt
+/-- `for by := int(lo); by <= int(hi); by++` — `lo`, `hi` are bytes in the code, so every `by` is below 256 -/
+def addRange (cls : Array Nat) (lo hi : Nat) (info : Info) (bt : Option BT) : Option BT :=
+  (((List.range (hi + 1 - lo)).map (· + lo)).filter (· < 256)).foldl (addByte cls info) bt
+
+/-- one closure entry of the first loop of `buildTransitions` -/
+def stepEntry (N : NFA) (cls : Array Nat) (bt : Option BT) (e : CEntry) : Option BT :=
+  if e.atEnd then bt else
+  match N.get e.nfaID with
+  | .byteRange lo hi nx => addRange cls lo hi (nx, e.slots, e.matchWins) bt
+  | .sparse ts => ts.foldl (fun bt t => addRange cls t.1 t.2.1 (t.2.2, e.slots, e.matchWins) bt) bt
+  | _ => bt
 
 /-- the first loop of `buildTransitions`: the byte transitions of every closure entry -/
-def byteTrans (N : NFA) (cls : Array Nat) (closure : List Entry) : Option BT :=
-  closure.foldl (fun bt e =>
-    match N.get e.nfaID with
-    | .byteRange lo hi nx => addRange cls lo hi nx e.slots bt
-    | .sparse ts => ts.foldl (fun bt t => addRange cls t.1 t.2.1 t.2.2 e.slots bt) bt
-    | _ => bt) (some (Array.replicate 256 none))
+def byteTrans (N : NFA) (cls : Array Nat) (closure : List CEntry) : Option BT :=
+  closure.foldl (stepEntry N cls) (some (Array.replicate 256 none))
 
 /-- the DFA under construction -/
 structure Builder where
   numStates : Nat
   table : Array Nat
   matchFlags : Array Bool
+  endFlags : Array Bool
   matchSlots : Array Nat
   nfaToDFA : List (Nat × Nat)
   deriving Inhabited
 
 def lookup (m : List (Nat × Nat)) (k : Nat) : Option Nat := (m.find? (·.1 = k)).map (·.2)
 
+/-- `addState(isMatch, atEnd, matchMask)` -/
+def addState (b : Builder) (stride : Nat) (isMatch atEnd : Bool) (matchMask : Nat) : Builder :=
+  { b with numStates := b.numStates + 1,
+           table := b.table ++ Array.replicate stride deadWord,
+           matchFlags := b.matchFlags.push isMatch,
+           endFlags := b.endFlags.push (isMatch && atEnd),
+           matchSlots := b.matchSlots.push (if isMatch then matchMask else 0) }
+
 /-- the second loop of `buildTransitions` for one byte class: build the target's DFA state (`rec` = `buildState`),
-    store `NewTransition(nextDFA, false, slots)` in the row that starts at `startIdx` -/
+    store `NewTransition(nextDFA, matchWins, slots)` in the row that starts at `startIdx` -/
 def rowStep (rec : Builder → Nat → Option (Builder × Nat)) (startIdx : Nat) (bt : BT) (acc : Option Builder) (cl : Nat) :
     Option Builder :=
   match acc with
@@ -196,19 +317,19 @@ def rowStep (rec : Builder → Nat → Option (Builder × Nat)) (startIdx : Nat)
   | some b =>
     match bt.getD cl none with
     | none => some b
-    | some (tgt, sl) =>
+    | some (tgt, sl, mw) =>
       match rec b tgt with
       | none => none
       | some (b, nextDFA) =>
         let idx := startIdx + cl
         if idx ≥ b.table.size then none
-        else some { b with table := b.table.setIfInBounds idx (Trans.encode ⟨nextDFA, false, sl⟩) }
+        else some { b with table := b.table.setIfInBounds idx (Trans.encode ⟨nextDFA, mw, sl⟩) }
 
-/-- `buildState` / `buildTransitions` (mutually recursive in the code; `fuel` bounds the recursion depth, which is
-    at most the number of distinct roots) -/
 def maxStateID : Nat := 2097151
 
-/-- `clsL` is the list of byte classes walked by the second loop of `buildTransitions` (`List.range 256` in `build`) -/
+/-- `buildState` / `buildTransitions` (mutually recursive in the code; `fuel` bounds the recursion depth, which is
+    at most the number of distinct roots).  `clsL` is the list of byte classes walked by the second loop of
+    `buildTransitions` (`List.range 256` in `build`) -/
 def buildState (N : NFA) (cls : Array Nat) (stride : Nat) (clsL : List Nat) : Nat → Builder → Nat → Option (Builder × Nat)
   | 0, _, _ => none
   | fuel+1, b, root =>
@@ -217,17 +338,13 @@ def buildState (N : NFA) (cls : Array Nat) (stride : Nat) (clsL : List Nat) : Na
     | none =>
       match epsClosure N root with
       | none => none
-      | some (closure, isMatch, matchMask) =>
+      | some cl =>
         let sid := b.numStates
         if sid > maxStateID then none else
         let startIdx := b.table.size
-        let b : Builder :=
-          { numStates := b.numStates + 1,
-            table := b.table ++ Array.replicate stride deadWord,
-            matchFlags := b.matchFlags.push isMatch,
-            matchSlots := b.matchSlots.push (if isMatch then matchMask else 0),
-            nfaToDFA := (root, sid) :: b.nfaToDFA }
-        match byteTrans N cls closure with
+        let b0 := addState b stride cl.matched cl.matchEnd cl.matchMask
+        let b : Builder := { b0 with nfaToDFA := (root, sid) :: b0.nfaToDFA }
+        match byteTrans N cls cl.entries with
         | none => none
         | some bt =>
           match clsL.foldl (rowStep (buildState N cls stride clsL fuel) startIdx bt) (some b) with
@@ -240,21 +357,29 @@ structure Table where
   table : Array Nat
   startState : Nat
   matchStates : Array Bool
+  endMatches : Array Bool
   matchSlots : Array Nat
   classes : Array Nat
   deriving Inhabited
 
-/-- `Build(n)` without the capture-count check; `none` = `ErrNotOnePass` -/
+def emptyBuilder : Builder :=
+  { numStates := 0, table := #[], matchFlags := #[], endFlags := #[], matchSlots := #[], nfaToDFA := [] }
+
+/-- `IsOnePass(n)` without the capture-count check -/
+def isOnePass (N : NFA) : Bool := N.startAnchored == N.startUnanchored && !hasUnsupportedLook N
+
+/-- `Build(n)` without the capture-count check; `none` = `ErrNotOnePass` (or a panic) -/
 def build (N : NFA) : Option Table :=
-  if N.startAnchored ≠ N.startUnanchored then none else      -- IsOnePass: IsAlwaysAnchored
+  if !isOnePass N then none else
+  if N.states.size > invalidState then none else      -- `conv.IntToUint32(n.States())` panics
   let stride := nextPow2 (alphabetLen N)
   let cls := classTable N
-  match buildState N cls stride (List.range 256) (N.states.size + 2)
-      { numStates := 0, table := #[], matchFlags := #[], matchSlots := #[], nfaToDFA := [] } N.startAnchored with
+  match buildState N cls stride (List.range 256) (N.states.size + 2) (addState emptyBuilder stride false false 0)
+      N.startAnchored with
   | none => none
   | some (b, start) =>
     some { stride := stride, table := b.table, startState := start, matchStates := b.matchFlags,
-           matchSlots := b.matchSlots, classes := cls }
+           endMatches := b.endFlags, matchSlots := b.matchSlots, classes := cls }
 
 /-- `Build(n)`: `nslots = CaptureCount*2` -/
 def buildFor (N : NFA) (nslots : Nat) : Option Table := if nslots > 32 then none else build N
@@ -270,85 +395,75 @@ def getTransition (T : Table) (state cl : Nat) : Nat :=
 def applyMask (mask : Nat) (pos : Nat) (slots : Slots) : Slots :=
   (List.range 32).foldl (fun sl i => if mask.testBit i then sl.set i (pos : Int) else sl) slots
 
-/-- the main loop of `Search` -/
-def searchLoop (T : Table) (h : Bytes) : Nat → Nat → Nat → Slots → Option Slots
-  | 0, _, _, _ => none
-  | fuel+1, pos, state, slots =>
+/-- the tail of `recordMatch`: `slots[0] = 0; slots[1] = pos` when there are at least two slots -/
+def spanSlots (pos : Nat) (sl : Slots) : Slots :=
+  if sl.length ≥ 2 then (sl.set 0 0).set 1 (pos : Int) else sl
+
+/-- `recordMatch(cache, state, pos)`: the new content of `cache.slots` -/
+def recordMatch (T : Table) (state pos : Nat) (scratch : Slots) : Slots :=
+  spanSlots pos (applyMask (T.matchSlots.getD state 0) pos scratch)
+
+/-- the main loop of `search(input, cache, longest)`; `best` = `cache.slots` once `matched` -/
+def searchLoop (T : Table) (h : Bytes) (longest : Bool) : Nat → Nat → Nat → Slots → Option Slots → Option Slots
+  | 0, _, _, _, best => best
+  | fuel+1, pos, state, scratch, best =>
     if pos < h.size then
       let w := getTransition T state (T.classes.getD (h.at pos) 0)
-      if wDead w then none else
-      let slots := applyMask (wSlots w) pos slots
-      let nextState := wNext w
-      if wMatchWins w ∧ T.matchStates.getD nextState false then
-        some ((applyMask (T.matchSlots.getD nextState 0) (pos+1) slots).set 1 ((pos+1 : Nat) : Int))
-      else searchLoop T h fuel (pos+1) nextState slots
+      let isM := T.matchStates.getD state false && !T.endMatches.getD state false
+      let best := if isM then some (recordMatch T state pos scratch) else best
+      if isM && wMatchWins w && !longest then best else
+      if wDead w then best else
+      searchLoop T h longest fuel (pos+1) (wNext w) (applyMask (wSlots w) pos scratch) best
     else
-      if T.matchStates.getD state false then
-        some ((applyMask (T.matchSlots.getD state 0) h.size slots).set 1 (h.size : Int))
-      else none
+      if T.matchStates.getD state false then some (recordMatch T state h.size scratch) else best
 
 /-- `Search(input, cache)` with `len(cache.slots) = nslots` -/
 def search (T : Table) (h : Bytes) (nslots : Nat) : Option Slots :=
-  searchLoop T h (h.size + 1) 0 T.startState ((unset nslots).set 0 0)
+  searchLoop T h false (h.size + 1) 0 T.startState (unset nslots) none
+
+/-- `SearchLongest(input, cache)` -/
+def searchLongest (T : Table) (h : Bytes) (nslots : Nat) : Option Slots :=
+  searchLoop T h true (h.size + 1) 0 T.startState (unset nslots) none
+
+/-- `IsMatch(input)` -/
+def isMatchLoop (T : Table) (h : Bytes) : Nat → Nat → Nat → Bool
+  | 0, _, _ => false
+  | fuel+1, pos, state =>
+    if pos < h.size then
+      if T.matchStates.getD state false && !T.endMatches.getD state false then true else
+      let w := getTransition T state (T.classes.getD (h.at pos) 0)
+      if wDead w then false else isMatchLoop T h fuel (pos+1) (wNext w)
+    else T.matchStates.getD state false
+
+def isMatch (T : Table) (h : Bytes) : Bool := isMatchLoop T h (h.size + 1) 0 T.startState
 
 /-! ### the DFA without the numbering (used by the proofs; checked against `search` by the harness) -/
 
-/-- `search` re-expressed over NFA roots: the DFA state of root `r` is the closure of `r`; a transition into the
-    anchored start (DFA state 0 = `DeadState`) is dead -/
-def arun (N : NFA) (cls : Array Nat) (h : Bytes) : Nat → Nat → Nat → Slots → Option Slots
-  | 0, _, _, _ => none
-  | fuel+1, pos, root, slots =>
+/-- `search` re-expressed over NFA roots: the DFA state of root `r` is the closure of `r` -/
+def orun (N : NFA) (cls : Array Nat) (h : Bytes) (longest : Bool) : Nat → Nat → Nat → Slots → Option Slots → Option Slots
+  | 0, _, _, _, best => best
+  | fuel+1, pos, root, scratch, best =>
     match epsClosure N root with
-    | none => none
-    | some (c, m, mm) =>
+    | none => best
+    | some c =>
+      let mm := if c.matched then c.matchMask else 0
       if pos < h.size then
-        match byteTrans N cls c with
-        | none => none
+        match byteTrans N cls c.entries with
+        | none => best
         | some bt =>
+          let isM := c.matched && !(c.matched && c.matchEnd)
+          let best := if isM then some (spanSlots pos (applyMask mm pos scratch)) else best
           match bt.getD (cls.getD (h.at pos) 0) none with
-          | none => none
-          | some (tgt, sl) =>
-            if tgt = N.startAnchored then none else arun N cls h fuel (pos+1) tgt (applyMask sl pos slots)
-      else if m then some ((applyMask mm h.size slots).set 1 (h.size : Int)) else none
+          | none => best
+          | some (tgt, sl, mw) =>
+            if isM && mw && !longest then best
+            else orun N cls h longest fuel (pos+1) tgt (applyMask sl pos scratch) best
+      else if c.matched then some (spanSlots h.size (applyMask mm h.size scratch)) else best
 
-def arunSearch (N : NFA) (h : Bytes) (nslots : Nat) : Option Slots :=
-  arun N (classTable N) h (h.size + 1) 0 N.startAnchored ((unset nslots).set 0 0)
+def orunSearch (N : NFA) (h : Bytes) (nslots : Nat) (longest : Bool) : Option Slots :=
+  orun N (classTable N) h longest (h.size + 1) 0 N.startAnchored (unset nslots) none
 
-/-! ### decidable hypotheses of the one-pass theorems -/
-
-/-- `addByte` that refuses to merge two closure entries with different slot masks -/
-def addByteStrict (cls : Array Nat) (next slots : Nat) (bt : Option BT) (byte : Nat) : Option BT :=
-  match bt with
-  | none => none
-  | some bt =>
-    let cl := cls.getD byte 0
-    match bt.getD cl none with
-    | some (tgt, sl) => if tgt ≠ next ∨ sl ≠ slots then none else some bt
-    | none => some (bt.setIfInBounds cl (some (next, slots)))
-
-def addRangeStrict (cls : Array Nat) (lo hi next slots : Nat) (bt : Option BT) : Option BT :=
-  ((List.range (hi + 1 - lo)).map (· + lo)).foldl (addByteStrict cls next slots) bt
-
-def byteTransStrict (N : NFA) (cls : Array Nat) (closure : List Entry) : Option BT :=
-  closure.foldl (fun bt e =>
-    match N.get e.nfaID with
-    | .byteRange lo hi nx => addRangeStrict cls lo hi nx e.slots bt
-    | .sparse ts => ts.foldl (fun bt t => addRangeStrict cls t.1 t.2.1 t.2.2 e.slots bt) bt
-    | _ => bt) (some (Array.replicate 256 none))
-
-/-- no closure merges two entries with different slot masks into one transition -/
-def strictRows (N : NFA) : Bool :=
-  (List.range N.states.size).all fun r =>
-    match epsClosure N r with
-    | none => true
-    | some (c, _, _) => (byteTransStrict N (classTable N) c).isSome || (byteTrans N (classTable N) c).isNone
-
-/-- no byte transition leads back to the anchored start state (whose DFA state is `DeadState`) -/
-def noBackToStart (N : NFA) : Bool := N.states.toList.all fun s =>
-  match s with
-  | .byteRange _ _ nx => nx != N.startAnchored
-  | .sparse ts => ts.all fun t => t.2.2 != N.startAnchored
-  | _ => true
+/-! ### auxiliary decidable checks (reported by the driver; not needed by the theorems any more) -/
 
 /-- no capture state for group 0 -/
 def noCap0 (N : NFA) : Bool := N.states.toList.all fun s =>
